@@ -267,9 +267,18 @@ def check(case):
     res.count("rows", len(lines))
     res.count("rows:bits", sum(1 for r in rows if r[0] == "bits"))
     res.count("rows:buffer", sum(1 for r in rows if r[0] == "buffer"))
-    # events printer: the property promises termination without error only (checked above); line count is a probe
+    # events printer: besides terminating without error (checked above) it "shows every event exactly once": one line per
+    # event, in order, the line of a field event naming its path.  Layout, colours and value rendering are not judged.
     if te.exc is None:
         res.count("events-printer-lines", len(te.out))
+        if len(te.out) != len(te.events):
+            res.v("C14.g", "C14.g:events-printer:count:%s" % mode, "%s: the events printer produced %d line(s) for %d event(s)" % (label, len(te.out), len(te.events)))
+        else:
+            for n_, (ln, ev) in enumerate(zip(te.out, te.events)):
+                if hasattr(ev, "path") and str(ev.path) not in ANSI.sub("", ln):
+                    res.v("C14.g", "C14.g:events-printer:path:%s" % mode, "%s: line %d of the events printer does not name the path %r: %r" % (
+                        label, n_, str(ev.path), ANSI.sub("", ln)[:120]))
+                    break
     res.nontrivial(tp.spec["type"], tp.spec.get("cc"), tp.spec.get("enc"), mode, tp.spec["data"])
     return res
 
